@@ -115,14 +115,33 @@ func parseBracket(rs []rune, alt bool) (e Elem, n int, open bool, err error) {
 		switch {
 		case c == '[' && i+1 < len(rs) && (rs[i+1] == ':' || rs[i+1] == '.' || rs[i+1] == '='):
 			k := rs[i+1]
+			if k == '=' {
+				// "[=" begins an equivalence class only when "=]" follows before
+				// the next "]"; otherwise both characters are ordinary (dash
+				// and bash agree)
+				j := i + 2
+				for j+1 < len(rs) && rs[j] != ']' && !(rs[j] == '=' && rs[j+1] == ']') {
+					j++
+				}
+				if j+1 < len(rs) && rs[j] == '=' && rs[j+1] == ']' && j > i+2 {
+					return e, 0, open, ErrUnmodelled
+				}
+				if j+1 < len(rs) && rs[j] == '=' && rs[j+1] == ']' {
+					return e, 0, open, ErrUnmodelled // "[==]"
+				}
+				e.Items = append(e.Items, bitem{lo: '[', hi: '['})
+				i++
+				continue
+			}
 			if k != ':' {
 				return e, 0, open, ErrUnmodelled
 			}
 			j := i + 2
-			for j+1 < len(rs) && !(rs[j] == k && rs[j+1] == ']') {
+			for j+1 < len(rs) && rs[j] != ']' && !(rs[j] == k && rs[j+1] == ']') {
 				j++
 			}
-			if j+1 >= len(rs) {
+			// (the class has to be closed before the bracket expression is)
+			if j+1 >= len(rs) || rs[j] == ']' {
 				// "[:" without ":]": both are ordinary characters; the "[" is
 				// a member of the set in one reading and dropped in the other
 				open = true
